@@ -30,10 +30,14 @@ TEMPLATES = {
     "tl": ["mul", "T", "L"],
     "vel_b": ["mul", ["div", ["num", 1.0], "T"], "L"],
     "lm_t_b": ["mul", "M", ["div", "L", "T"]],
+    # a factor that cancels across two categories of one quantity type while other factors survive
+    "len_cancel": ["div", ["mul", "L", "T:time"], "T:date"],
+    "vel_cancel": ["div", ["div", ["mul", "L", "T:time"], "T:date"], "T"],
+    "area_cancel": ["mul", ["div", "L:length", "L:depth"], ["mul", "L", "L"]],
 }
 # groups of templates with equal dimensions (operands of a + / - may come from different members)
-EQUAL_DIMS = [["lt", "tl"], ["vel", "vel_b"], ["area", "pow_area", "area_cats"], ["vol", "vol_r", "pow_vol"], ["len", "len_mix"], ["lm_t", "lm_t_b"]]
-QUICK = ["len", "time", "area", "vel", "freq", "area_cats", "len_mix", "mom", "pow_area", "vol", "lt", "tl", "vel_b"]
+EQUAL_DIMS = [["lt", "tl"], ["vel", "vel_b"], ["area", "pow_area", "area_cats"], ["vol", "vol_r", "pow_vol"], ["len", "len_mix", "len_cancel"], ["lm_t", "lm_t_b"], ["vel", "vel_cancel"], ["area", "area_cancel"]]
+QUICK = ["len", "time", "area", "vel", "freq", "area_cats", "len_mix", "mom", "pow_area", "vol", "lt", "tl", "vel_b", "len_cancel", "vel_cancel", "area_cancel"]
 THOROUGH = list(TEMPLATES)
 
 
